@@ -190,6 +190,42 @@ class XRun:
         self.events.append(['send', org, fr(T), lat, es, res])
         return ok
 
+    def do_msg(self, rid, k, a):
+        """a plain MESSAGE (send_msg) with a completion bundle as argument: ['M', id, lat, elements].  The bundle travels as a blob
+        whose time tags are set when the message is built: logged relative to the start (no model: NRT vs RT only)"""
+        self.last_dgram = None
+        try:
+            self.addr.send_msg('/c', int(a[1]), [lat_of(a[2])] + self.build_elems(a[3]))
+            if self.mode == 'nrt':
+                score = main._osc_interface._osc_score
+                ent = max((x for x in score._scoreq._queue), key=lambda x: x[1])
+                wire = parse_packet(bytes(ent[2].msg[4:]))
+                assert wire[0] == 'b' and len(wire[2]) == 1
+                outer = Fraction(wire[1], 1 << 32)            # the score time of the message: the logical time it was sent at
+                wire = wire[2][0]
+                off = 0
+            else:
+                wire = parse_packet(self.last_dgram)
+                outer = None
+                off = SystemClock._elapsed_osc_offset
+            assert wire[0] == 'm' and wire[1] == '/c' and isinstance(wire[2][1], bytes)
+            t0 = Fraction(self.t0)
+
+            def tags(w):
+                if w[0] == 'm':
+                    return ['m', msg_id(w[1], w[2])]
+                if w[1] == 1:
+                    return ['b', 'imm', [tags(x) for x in w[2]]]
+                rel = Fraction(w[1] - off, 1 << 32) - t0
+                return ['b', fr(Fraction(round(rel * (1 << 24)), 1 << 24)), [tags(x) for x in w[2]]]
+            self.qlog(rid, k, 'msg', int(wire[2][0]), json.dumps(tags(parse_packet(wire[2][1]))))
+            if outer is not None and abs(outer - Fraction(main.current_tt._seconds)) > Fraction(1, 1 << 31):
+                self.errors.append('message %s entered the score at %s, logical time %s' % (a, outer, main.current_tt._seconds))
+            return True
+        except Exception as e:
+            self.errors.append('message action %s: %r' % (a, e))
+            return False
+
     def new_routine(self, b, path):
         rid = len(self.routs)
         run = self
@@ -303,6 +339,8 @@ class XRun:
                 # a lower bound on physical progress only: the task's time has come
                 self.qlog(rid, k, 'not-early', bool(K5._jit.elapsed() >= lt))
             return True
+        if kind == 'M':
+            return self.do_msg(rid, k, a)
         if kind in ('resumeon', 'playon', 'replayon'):
             # the routine is put on ANOTHER clock while its wake-up on the first one may still be pending
             t = self.latest.get(a[1])
